@@ -111,7 +111,7 @@ func runRange(env Env, p *Prop, t Tier, seed uint64, lo, hi int, agg *Agg, tag s
 		if p.Race {
 			rd := filepath.Join(env.BuildDir, "race", p.ID)
 			os.MkdirAll(rd, 0o755)
-			cmd.Env = append(cmd.Env, "GORACE=halt_on_error=0 history_size=4 log_path="+filepath.Join(rd, "r"))
+			cmd.Env = append(cmd.Env, "GORACE=halt_on_error=0 exitcode=0 history_size=4 log_path="+filepath.Join(rd, "r"))
 		}
 		if timeoutMul > 1 {
 			base := 120
